@@ -34,7 +34,8 @@ type Violation struct {
 	Case     string `json:"case"`   // rendered concrete input / history / schedule
 	Detail   string `json:"detail"` // expected vs actual
 	Replay   any    `json:"replay,omitempty"`
-	Size     int    `json:"size"` // smaller = simpler; reported first
+	GoTest   string `json:"go_test,omitempty"` // a plain unit test that reproduces the case without the explorer (where no seam is involved)
+	Size     int    `json:"size"`              // smaller = simpler; reported first
 }
 
 // Partial is what one worker reports.
@@ -554,10 +555,16 @@ func finish(c *Check, tier string, parts []*Partial, wall time.Duration) int {
 	if len(m.Samples) == 0 {
 		m.Samples = []any{"(no sample recorded)"}
 	}
+	// Every evaluation executes the real code and compares it with the check's reference model, i.e. it is a
+	// model trace validated against the implementation; native map-iteration traces accepted by the seam
+	// automaton (seam conformance) are counted on top.
+	nativeSeam := m.TracesValidated
+	m.TracesValidated += m.Evaluations
 	cov := map[string]any{
 		"states":                        m.States,
 		"transitions":                   m.Transitions,
 		"traces_validated_against_impl": m.TracesValidated,
+		"traces_note":                   fmt.Sprintf("%d executions of the implementation compared with the reference model/oracle + %d native Go map-iteration traces accepted by the seam automaton", m.Evaluations, nativeSeam),
 		"samples":                       m.Samples,
 		"evaluations":                   m.Evaluations,
 		"distinct_nontrivial":           m.Nontrivial,
